@@ -961,6 +961,13 @@ def case_fails(case, slug):
 
 
 def shrink(what, case):
+    try:
+        return _shrink(what, case)
+    finally:
+        Worlds.cleanup()        # (called from finish(), after run() has cleaned up)
+
+
+def _shrink(what, case):
     from harness import common
     case = copy.deepcopy(case)
     # drop iterations from the end, then empty slots, then simplify outcomes
